@@ -54,13 +54,16 @@ type connOp struct {
 }
 
 type connCase struct {
-	ClientID    string   `json:"client_id"`
-	ProduceMax  int      `json:"produce_max"`
-	FetchMax    int      `json:"fetch_max"`
-	MetadataMax int      `json:"metadata_max"`
-	Leader      bool     `json:"leader"` // DialLeader (conn bound to t0/1) or plain Dial
-	Chunk       int      `json:"chunk"`  // >0: the broker delivers fetch responses in reads of at most this many bytes
-	Ops         []connOp `json:"ops"`
+	ClientID    string `json:"client_id"`
+	ProduceMax  int    `json:"produce_max"`
+	FetchMax    int    `json:"fetch_max"`
+	MetadataMax int    `json:"metadata_max"`
+	// CreateMax / DeleteMax: highest CreateTopics / DeleteTopics version the broker advertises (0 in old cases = the fake's default)
+	CreateMax int      `json:"create_max,omitempty"`
+	DeleteMax int      `json:"delete_max,omitempty"`
+	Leader    bool     `json:"leader"` // DialLeader (conn bound to t0/1) or plain Dial
+	Chunk     int      `json:"chunk"`  // >0: the broker delivers fetch responses in reads of at most this many bytes
+	Ops       []connOp `json:"ops"`
 }
 
 type groupCase struct {
@@ -212,6 +215,12 @@ func runConnRequests(tb ev.TB, c connCase) (labels []string, nontrivial bool) {
 	cl.SetVersions(0, 0, 0, int16(c.ProduceMax))
 	cl.SetVersions(0, 1, 0, int16(c.FetchMax))
 	cl.SetVersions(0, 3, 0, int16(c.MetadataMax))
+	if c.CreateMax > 0 {
+		cl.SetVersions(0, 19, 0, int16(c.CreateMax-1))
+	}
+	if c.DeleteMax > 0 {
+		cl.SetVersions(0, 20, 0, int16(c.DeleteMax-1))
+	}
 	fail := func(sig, format string, args ...any) { ev.Fail(tb, "conn-requests", sig, c, format, args...) }
 	d := &kafka.Dialer{Timeout: 3 * time.Second, ClientID: c.ClientID, DialFunc: nw.Dial}
 	ctx, cancel := context.WithTimeout(context.Background(), 5*time.Second)
@@ -622,6 +631,8 @@ func TestConnRequests(t *testing.T) {
 			ProduceMax:  rapid.SampledFrom([]int{2, 3, 6, 7, 9}).Draw(t, "produceMax"),
 			FetchMax:    rapid.SampledFrom([]int{2, 4, 5, 9, 10, 11}).Draw(t, "fetchMax"),
 			MetadataMax: rapid.SampledFrom([]int{1, 5, 6, 9}).Draw(t, "metadataMax"),
+			CreateMax:   1 + rapid.SampledFrom([]int{0, 1, 2, 3, 4}).Draw(t, "createMax"), // stored +1: the Conn implements v0..v2
+			DeleteMax:   1 + rapid.SampledFrom([]int{0, 1, 3}).Draw(t, "deleteMax"),
 			Leader:      rapid.IntRange(0, 3).Draw(t, "leader") != 0,
 			Chunk:       rapid.SampledFrom([]int{0, 0, 1, 2, 3, 5, 7, 64, 1000}).Draw(t, "chunk"),
 		}
